@@ -486,8 +486,17 @@ def rule_reseed_limit(rep, m, cname):
         draws = [c for c, _ops in reach_calls(m, g, "ascon_trng_generate", helpers)]
         pdom = g.postdominators()
         for i in rs_sites:
-            ok = any(g.dominates(d, i) or d.block.name in pdom.get(i.block.name, ()) or
-                     (d.block.name == i.block.name) for d in draws)
+            def always(d):
+                if g.dominates(d, i) or d.block.name in pdom.get(i.block.name, ()) or d.block.name == i.block.name:
+                    return True
+                # a draw in the body of a loop that certainly runs (constant trip count >= 1) whose header is always reached
+                for lp in g.d.get("loops", []):
+                    if d.block.name in lp["blocks"] and (lp.get("btc_const") or 0) >= 1:
+                        h = lp["header"]
+                        if h in pdom.get(i.block.name, ()) or h in g.dominators().get(i.block.name, ()):
+                            return True
+                return False
+            ok = any(always(d) for d in draws)
             if ok:
                 rep.instance(rid, 1, {"config": cname, "function": g.name, "reset": i.where()})
             else:
@@ -611,6 +620,34 @@ def rule_status(rep, m, cname):
                 why = "a return value does not derive from ascon_trng_generate's result"
                 ok = False
                 break
+        # a draw made in a loop reports through a loop-carried status: the value carried round the loop must combine the
+        # new result with what was carried so far (ok &= ..., if (!r) ok = 0), else only the last draw is reported
+        if ok:
+            for c in gen:
+                for lp in f.d.get("loops", []):
+                    if c.block.name not in lp["blocks"]:
+                        continue
+                    blocks = set(lp["blocks"])
+                    hdr = f.bmap[lp["header"]]
+                    acc = False
+                    carried = False
+                    for p in hdr.insts:
+                        if p.op != "phi":
+                            continue
+                        latch = [v for v, pr in p.d["inc"] if pr in blocks]
+                        if not latch or not _traces_to(f, latch[0], c.id):
+                            continue
+                        carried = True
+                        if _traces_to(f, latch[0], p.id):
+                            acc = True
+                    if carried and not acc:
+                        ok = False
+                        why = ("the status of the draws made in a loop is overwritten on each iteration (the value carried round "
+                               "the loop does not include the earlier results): only the last draw is reported")
+            missing = [c for c in gen if not any(k != "const" and _derives_from(f, k, v, c.id) for k, v, _w, _f in return_values(f))]
+            if ok and missing:
+                ok = False
+                why = "the result of the draw at %s never reaches the returned status" % missing[0].where()
         if ok:
             rep.instance(rid, 1, {"config": cname, "function": name, "status": "result of ascon_trng_generate"})
         else:
